@@ -250,7 +250,53 @@ def direct_ev2(a):
     return None
 
 
+def direct_watch_only_history(a):
+    """Watch-only derivation on every public-derivation scheme, after the object has been USED while private:
+    derive children privately, convert to public-only in place, derive the same children again.  The result must
+    be public-only (no private key, hardened refused) and equal the public half of the private child, and equal
+    what an object that was public-only from the start gives.  Covers BIP-32 (secp256k1, P-256), Khovratovich-Law,
+    Cardano Icarus and Byron legacy."""
+    import bip_utils as B
+    ci, seed, idxs = a
+    names = ["Bip32Slip10Secp256k1", "Bip32Slip10Nist256p1", "Bip32KholawEd25519", "CardanoIcarusBip32", "CardanoByronLegacyBip32"]
+    cls = getattr(B, names[ci])
+    sd = seed[:32] if ci == 4 else seed
+    priv = cls.FromSeed(sd)
+    want = {}
+    for i in idxs:
+        c = priv.ChildKey(i)
+        want[i] = (c.PublicKey().RawCompressed().ToBytes(), c.ChainCode().ToBytes(), c.Depth().ToInt(),
+                   c.Index().ToInt(), c.ParentFingerPrint().ToBytes())
+    fresh_pub = cls.FromExtendedKey(cls.FromSeed(sd).PublicKey().ToExtended())
+    priv.ConvertToPublic()
+    for route, obj in (("converted after use", priv), ("from xpub", fresh_pub)):
+        for i in idxs:
+            try:
+                c = obj.ChildKey(i)
+            except Exception as e:  # noqa
+                return "%s %s: soft child %d refused with %s" % (names[ci], route, i, type(e).__name__)
+            if not c.IsPublicOnly():
+                return "%s %s: child %d of a public-only object is not public-only" % (names[ci], route, i)
+            try:
+                c.PrivateKey()
+                return "%s %s: child %d of a public-only object yields a private key" % (names[ci], route, i)
+            except Bip32KeyError:
+                pass
+            got = (c.PublicKey().RawCompressed().ToBytes(), c.ChainCode().ToBytes(), c.Depth().ToInt(),
+                   c.Index().ToInt(), c.ParentFingerPrint().ToBytes())
+            if got != want[i]:
+                return "%s %s: watch-only child %d differs from the public half of the private child (pub %s vs %s)" % (
+                    names[ci], route, i, got[0].hex()[:20], want[i][0].hex()[:20])
+        try:
+            obj.ChildKey(HARD)
+            return "%s %s: hardened child of a public-only object accepted" % (names[ci], route)
+        except Bip32KeyError:
+            pass
+    return None
+
+
 FUNCS = {
+    "watch_only_history": Func(direct=direct_watch_only_history),
     # histories of ChildKey / DerivePath / ConvertToPublic / PrivateKey from a seed, raw key, public key or extended key
     "script": Func(model=model_script, impl=impl_script),
     # start -> prefix -> ConvertToPublic -> soft path (model) ; direct: against derive-then-convert, via xpub,
@@ -381,6 +427,21 @@ def generate(ctx):
     if msg:
         raise RuntimeError("reference arithmetic self-test failed: " + msg)
 
+    # -- watch-only after use, all public-derivation schemes; directed: parents whose public key starts with a zero byte
+    import bip_utils as _B
+    for ci, nm in enumerate(["Bip32Slip10Secp256k1", "Bip32Slip10Nist256p1", "Bip32KholawEd25519", "CardanoIcarusBip32",
+                             "CardanoByronLegacyBip32"]):
+        cls = getattr(_B, nm)
+        found, t = 0, 0
+        while found < ctx.n(1, 4) and t < 3000:       # parent public key with a leading zero byte (1/256)
+            sd = t.to_bytes(4, "big") * 16
+            pk = cls.FromSeed(sd[:32] if ci == 4 else sd).PublicKey().RawCompressed().ToBytes()
+            if pk[1] == 0:
+                ctx.run("watch_only_history", [ci, sd, [0, 1, 7]], "lead0-parent")
+                found += 1
+            t += 1
+        for _ in range(ctx.n(3, 40)):
+            ctx.run("watch_only_history", [ci, rand_seed(rng)[:64].ljust(64, b"\x01"), [0, rng.randrange(HARD), HARD - 1]], "rand")
     # -- refusal clauses, every curve: hardened from public-only, PrivateKey() on public-only, any public derivation
     #    on the ed25519 schemes, index out of range
     for curve in range(4):
@@ -460,3 +521,25 @@ def generate(ctx):
             ctx.run("ev1_from_pub", [R.pub_bytes(0, kb), change, addr], "ev1-rand")
         if k % 6 == 0:
             ctx.run("ev2", [rand_seed(rng), rng.choice([0, 1]), rng.randrange(HARD)], "ev2-rand")
+
+
+# ---- known finding C18-BYRON-PUBDERIV (recorded; see known_findings.json) ----
+# CardanoByronLegacyBip32 public (soft) derivation differs from the public half of private derivation for ~44% of
+# indices: libsodium's noclamp multiplication clears bit 255 of the byte-wise 8*ZL scalar.  The repair would change
+# values pinned by tests/cardano, so it is recorded, not fixed.
+
+def byron_pubderiv_match(fn, args, record):
+    return fn == "watch_only_history" and record.get("kind") == "direct" and int(args[0]) == 4 \
+        and "differs from the public half of the private child" in record.get("what", "")
+
+
+def byron_pubderiv_match_replay():
+    from bip_utils import CardanoByronLegacyBip32
+    seed = bytes.fromhex("4420823cfde6f1c26b30f90ec7dd01e4887534a20f0b0d04c36ed80e71e0fd77")
+    i = 1973981844
+    p = CardanoByronLegacyBip32.FromSeed(seed)
+    a = p.ChildKey(i).PublicKey().RawCompressed().ToBytes()
+    q = CardanoByronLegacyBip32.FromSeed(seed)
+    q.ConvertToPublic()
+    b = q.ChildKey(i).PublicKey().RawCompressed().ToBytes()
+    return None if a == b else "seed 4420823c..fd77, index %d: private-then-public %s.. vs public derivation %s.." % (i, a.hex()[:16], b.hex()[:16])
